@@ -210,6 +210,16 @@ def join(op, clauses, using=None, nvl=None, last=True):
     return A.JoinOp(op=op, clauses=cl, using=using, nvl=nvl, isLast=last, **P)
 
 
+def exists_in(l, r, retain=None):
+    """retain: None | True | False | 'all'"""
+    ch = [_e(l), _e(r)]
+    if retain == "all":
+        ch.append(A.ParamConstant(type_="PARAM_CONSTANT", value="all", **P))
+    elif retain is not None:
+        ch.append(A.Constant(type_="BOOLEAN_CONSTANT", value=bool(retain), **P))
+    return A.MulOp(op="exists_in", children=ch, **P)
+
+
 def setop(op, operands):
     return mulop(op, operands)
 
